@@ -8,8 +8,8 @@ SIZES = {"quick": 12000, "thorough": 240000}
 BATCH = 3000
 SHRINK_BUDGET = 400
 RULE = ("each case = the same traffic twice (phase A with reload ops; the op `phase B` clears all module state and runs the recorded "
-        "ops of phase A again without the reloads, at the same virtual times, answering with the list of its decisions): 1-4 resources, initial circuit-breaker (error count / error ratio / slow-request ratio, requests with a response time), flow (throttling, warm-up, reject) and hotspot (QPS reject and throttling, per-value "
-        "items) rule lists, entries with/without error at time steps from {0,1,…,retry timeout, window length}, 1-3 reloads through "
+        "ops of phase A again without the reloads, at the same virtual times, answering with the list of its decisions): 1-4 resources, initial circuit-breaker (error count / error ratio / slow-request ratio, requests with a response time), flow (throttling, warm-up, reject) and hotspot (QPS reject and throttling, concurrency metric, "
+        "per-value items) rule lists, entries with/without error (entry+exit in one op, or `in`/`out` pairs that stay in flight across reloads) at time steps from {0,1,…,retry timeout, window length}, 1-3 reloads through "
         "LoadRules / LoadRulesOfResource whose edits are add / remove / modify / duplicate / reorder / never-refusing sibling "
         "before or after an unchanged rule; non-trivial = a reload happened while some controller held state (a block or a wait "
         "was observed before it) and a block/wait was observed after it; distinct by (rule lists, reload ops, op-kind sequence)")
@@ -50,6 +50,12 @@ def hot_rule(rng, rid, res, inert=False):
     sval, sthr = (rng.choice([1, 2, 3]), BIG if inert else rng.choice([0, 1, 4])) if items == 2 else (0, 0)
     thr = BIG if inert else rng.choice([0, 1, 1, 2, 3, 5])
     cb = 1 if rng.random() < 0.3 else 0
+    if rng.random() < 0.35:      # concurrency metric: per-value calls in flight
+        thr = BIG if inert else rng.choice([0, 1, 1, 2, 3])
+        if items == 2 and not inert:
+            sthr = rng.choice([0, 1, 2])
+        return [rid, res, 0, cb, 0, thr, rng.choice([0, 100]) if cb else 0, 0 if cb else rng.choice([0, 0, 3]), rng.choice([0, 1]),
+                rng.choice([0, 0, 100]), items, sval, sthr]
     return [rid, res, 1, cb, 0, thr, rng.choice([0, 100, 2000]) if cb else 0, rng.choice([0, 0, 1, 3]), rng.choice([1, 1, 2, 10]),
             rng.choice([0, 0, 100]), items, sval, sthr]
 
@@ -73,6 +79,14 @@ class G:
 
     def mk(self, mod, res, inert=False):
         return {"cb": cb_rule, "flow": flow_rule, "hot": hot_rule}[mod](self.rng, self.rid(), res, inert)
+
+    @staticmethod
+    def is_inert(mod, r):
+        if mod == "cb":
+            return r[2] == 2 and r[8] >= BIG
+        if mod == "flow":
+            return r[2] == 0 and r[3] == 0 and r[4] >= BIG
+        return r[5] >= BIG and (r[10] != 2 or r[12] >= BIG)
 
     def inert_variant(self, mod, r):
         """`r` with another (never-refusing) threshold: stat-reusable with `r`, not equal"""
@@ -123,9 +137,22 @@ class G:
                     dom[6 if r[3] == 1 else 7] = [0, 100, 2000] if r[3] == 1 else [0, 1, 3]
                     if r[10] == 2:
                         dom[12] = [0, 1, 4]
+                    if r[2] == 0 and rng.random() < 0.5:
+                        # concurrency rule: modify only the field its decisions never look at
+                        dom = {(6 if r[3] == 1 else 7): [0, 1, 3, 100]}
                 f = rng.choice(sorted(dom))
                 vals = [v for v in dom[f] if v != r[f]]
                 r[f] = rng.choice(vals)
+            elif k < 0.57 and any(self.is_inert(mod, r) for r in new):
+                # modify a never-refusing rule (it stays never-refusing and stat-reusable): the resource's other rules are unchanged
+                i = rng.choice([j for j, r in enumerate(new) if self.is_inert(mod, r)])
+                if mod == "cb":
+                    f = rng.choice([3, 4, 9])
+                    new[i][f] = rng.choice([v for v in {3: [1, 500, 3000, 60000], 4: [0, 1, 2, 5], 9: [0, 1, 2, 3]}[f] if v != new[i][f]])
+                elif mod == "flow":
+                    new[i][4] += rng.choice([1, 2])
+                else:
+                    new[i][5] += rng.choice([1, 2])
             elif k < 0.62 and new:         # duplicate a rule (next to it or at the end)
                 i = rng.randrange(len(new))
                 new.insert(rng.choice([i, i + 1, len(new)]), list(new[i]))
@@ -165,6 +192,8 @@ def gen_case(rng, cid):
             rules.append(list(rng.choice(rules)))      # a duplicate from the start
         cur[m] = rules
         A.append(f"{m}.load {enc(rules)}")
+    live, nh = [], 0
+    pin = rng.choice([0.0, 0.0, 0.25, 0.5]) if "hot" not in mods else rng.choice([0.0, 0.3, 0.5, 0.7])
     nreload = rng.choice([1, 1, 2, 3])
     nseg = rng.randint(2, 6)
     reload_at = sorted(rng.sample(range(1, nseg + 1), min(nreload, nseg)))
@@ -187,6 +216,13 @@ def gen_case(rng, cid):
                 now += rng.choice(steps)
                 A.append(f"t {now}")
             x = hot if rng.random() < 0.7 else rng.randint(1, nres)
+            if live and rng.random() < 0.3:
+                A.append(f"out {live.pop(rng.randrange(len(live)))} {1 if rng.random() < perr else 0}")
+            if rng.random() < pin:        # an entry that stays in flight (maybe across a reload)
+                nh += 1
+                live.append(nh)
+                A.append(f"in {nh} {x} {rng.choice([0, 1, 1, 2, 3]) if 'hot' in mods else 0}")
+                continue
             arg = f" {rng.choice([0, 1, 1, 2, 3])}" if "hot" in mods else ""
             if "cb" in mods and rng.random() < 0.4:
                 rt = rng.choice([1, 5, 6, 10, 51, 100])
@@ -238,10 +274,81 @@ def gen_warm(rng, cid):
     return Case(cid, A + ["phase B"], tags=("warm-slice",))
 
 
+def gen_order(rng, cid):
+    """three or more stat-compatible breakers on one resource, one of them never-refusing; the last one is open; the reload
+    modifies only the never-refusing one (retry / min request / probe): which candidate its statistic comes from depends on
+    the order in which the builder keeps the remaining candidates"""
+    g = G(rng)
+    now = T0 + rng.randint(0, 10 ** 6)
+    stativ, buckets = rng.choice([1000, 2000, 10000]), rng.choice([0, 1, 2])
+    def mk(thr, minreq, retry):
+        return [g.rid(), 1, 2, retry, minreq, stativ, buckets, 0, thr, rng.choice([0, 1])]
+    a = mk(rng.choice([3, 5]), rng.choice([1, 5]), 3000)
+    i1 = mk(BIG, 1, 1000)
+    c = mk(1, rng.choice([0, 1]), 60000)
+    rules = rng.choice([[a, i1, c], [a, i1, mk(2, 1, 60000), c], [i1, a, c], [a, c, i1]])
+    A = [f"t {now}", f"cb.load {enc(rules)}", "e 1 1"]
+    now += rng.choice([1, 10])
+    A += [f"t {now}", "e 1 0"]
+    i2 = list(i1)
+    f = rng.choice([3, 4, 9])
+    i2[f] = {3: 500, 4: 2, 9: 3}[f]
+    new = [i2 if r is i1 else r for r in rules]
+    A.append(f"cb.reload {enc(new)}" if rng.random() < 0.5 else f"cb.reloadres 1 {enc(new)}")
+    for _ in range(rng.randint(1, 4)):
+        now += rng.choice([0, 1, 100, 3000])
+        A += [f"t {now}", f"e 1 {rng.choice([0, 1])}"]
+    return Case(cid, A + ["phase B"], tags=("order-slice",))
+
+
+def gen_conc(rng, cid):
+    """hotspot concurrency rule with calls in flight across a reload that leaves the rule unchanged (nil items: stat-reuse
+    path), modifies a field its decisions never look at (BurstCount / MaxQueueingTimeMs), or modifies the threshold"""
+    g = G(rng)
+    now = T0 + rng.randint(0, 10 ** 6)
+    cb = rng.choice([0, 0, 1])
+    items = rng.choice([0, 0, 2])
+    thr = rng.choice([1, 2, 2, 3])
+    a = [g.rid(), 1, 0, cb, 0, thr, 0, 0, rng.choice([0, 1]), rng.choice([0, 100]), items, 1 if items else 0, rng.choice([1, 2]) if items else 0]
+    extra = [g.mk("hot", 2)] if rng.random() < 0.4 else []
+    A = [f"t {now}", f"hot.load {enc([a] + extra)}"]
+    live, nh = [], 0
+    def traffic(k):
+        nonlocal nh, now
+        for _ in range(k):
+            r = rng.random()
+            if r < 0.6:
+                nh += 1
+                live.append(nh)
+                A.append(f"in {nh} 1 {rng.choice([1, 1, 1, 2])}")
+            elif r < 0.85 and live:
+                A.append(f"out {live.pop(rng.randrange(len(live)))} 0")
+            else:
+                now += rng.choice([1, 100, 1000])
+                A.append(f"t {now}")
+    traffic(rng.randint(2, 6))
+    for _ in range(rng.choice([1, 1, 2])):
+        kind = rng.choice(["same", "neutral", "neutral", "thr"])
+        b = list(a)
+        if kind == "neutral":
+            b[6 if cb else 7] = rng.choice([1, 5, 50])
+        elif kind == "thr":
+            b[5] = thr + rng.choice([1, 2])
+        new = rng.choice([[b], [b] + extra, extra + [b], [b, g.mk("hot", 3)]])
+        A.append(f"hot.reload {enc(new)}" if rng.random() < 0.5 else f"hot.reloadres 1 {enc([r for r in new if r[1] == 1])}")
+        a = b
+        traffic(rng.randint(2, 7))
+    return Case(cid, A + ["phase B"], tags=("conc-slice",))
+
+
 def gen(ctx, n):
     out = []
     for i in range(n):
-        if i % 25 == 7:
+        if i % 25 == 3:
+            out.append(gen_conc(ctx.rng, f"c{ctx.seed}-{i}"))
+        elif i % 50 == 11:
+            out.append(gen_order(ctx.rng, f"o{ctx.seed}-{i}"))
+        elif i % 25 == 7:
             out.append(gen_steal(ctx.rng, f"k{ctx.seed}-{i}"))
         elif i % 25 == 16:
             out.append(gen_warm(ctx.rng, f"w{ctx.seed}-{i}"))
@@ -283,7 +390,7 @@ def nontrivial(case, impl):
         if ".reload" in op:
             if seen_state:
                 reloaded = True
-        elif op.startswith("e "):
+        elif op.startswith(("e ", "in ")):
             if r.startswith("block") or "wait" in r:
                 if reloaded:
                     after = True
